@@ -169,32 +169,55 @@ def malformed_cause(c, fname):
     return "unknown"
 
 
-def vsr_twice(c):
+def dup_vsr_refs(c):
+    """(vs, ref) pairs where the VirtualServer vs references the VirtualServerRoute ref in two routes"""
+    out = []
     for r in c.get("res") or []:
         if r["kind"] == "vs":
             refs = [x.split("->", 1)[1] for x in r.get("routes") or []]
-            if len(refs) != len(set(refs)):
-                return True
-    return False
+            for ref in sorted(set(refs)):
+                if refs.count(ref) > 1:
+                    out.append((r, ref))
+    return out
+
+
+def safe(ns, name):
+    return (ns + "_" + name).replace("-", "_")
 
 
 def dup_scheme(c, kind, scope, ident):
-    if "keyval_zone_split_clients" in ident:
-        return "variable_namer"
+    """Which KNOWN collision mechanism explains this duplicate?  Each answer is verified against the
+    resources of the case; anything that is not positively explained is `unexplained:<kind>` and
+    therefore never matches a known finding."""
+    res = c.get("res") or []
+    if kind == "zone" and "keyval_zone_split_clients" in ident:
+        vss = [r for r in res if r["kind"] == "vs" and ident.startswith("vs_" + safe(r["ns"], r["name"]) + "_keyval_zone_split_clients_")]
+        if len({(r["ns"], r["name"]) for r in vss}) > 1:
+            return "variable_namer"
     if kind in ("upstream", "zone") and scope in ("http", "shm"):
-        if ident.startswith("vs_") and "_vsr_" in ident and vsr_twice(c):
-            return "vsr-referenced-twice"
-        if ident.startswith("vs_"):
-            return "vs_upstream_name"
-        if ident.startswith("ts_") or ident.startswith("pol_rl_"):
-            return "ts_or_policy_name"
-        return "ingress_upstream_name"
+        for vs, ref in dup_vsr_refs(c):
+            if ident.startswith("vs_%s_%s_vsr_%s_" % (vs["ns"], vs["name"], ref.replace("/", "_"))):
+                return "vsr-referenced-twice"
+        # Ingress upstream names <ns>-<ing>-<host>-<svc>-<port>: a collision needs two different
+        # (Ingress, host) pairs that both produce a prefix of the identifier
+        owners = {(r["ns"], r["name"], h) for r in res if r["kind"] in ("ing", "minion") for h in r.get("hosts") or []
+                  if ident.startswith("%s-%s-%s-" % (r["ns"], r["name"], h))}
+        if "/" not in ident and len(owners) > 1:
+            return "ingress_upstream_name"
     if kind == "location":
-        if vsr_twice(c) and scope.startswith("conf.d/vs_"):
-            return "vsr-referenced-twice"
-        if ident.startswith("named @login_url_"):
+        for vs, ref in dup_vsr_refs(c):
+            vsr = [r for r in res if r["kind"] == "vsr" and r["ns"] + "/" + r["name"] == ref]
+            if scope == "conf.d/vs_%s_%s.conf" % (vs["ns"], vs["name"]) and \
+                    any(ident in ("prefix " + p, "exact " + p[1:] if p.startswith("=") else "", "prefix " + p.split(" ", 1)[-1]) for v in vsr for p in v.get("paths") or []):
+                return "vsr-referenced-twice"
+        minions = {(r["ns"], r["name"]) for r in res if r["kind"] == "minion" and ident == "named @login_url_%s-%s" % (r["ns"], r["name"])}
+        if len(minions) > 1:
             return "ingress_login_location"
-    return "other"
+        one = [r for r in res if r["kind"] == "minion" and ident == "named @login_url_%s-%s" % (r["ns"], r["name"])
+               and len(r.get("paths") or []) > 1 and "nginx.com/jwt-login-url" in (r.get("ann") or {})]
+        if one:
+            return "minion_login_location_per_path"
+    return "unexplained:" + kind
 
 
 def slim(c):
